@@ -413,6 +413,10 @@ func (pg *aprog) source() map[string]string {
 		fmt.Fprintf(&m, "%s\ntype Junk%d struct {\n\t%s\n\tX string\n}\n\n", jk, i, jk)
 	}
 	files["types.go"] = m.String()
+	// two packages of the same name (v1/models, v2/models), each with a model type Pet, both used as response bodies
+	files["../v1/models/pet.go"] = "// Package models holds the first version.\npackage models\n\n// Pet of version one.\n//\n// swagger:model petV1\ntype Pet struct {\n\t// the id\n\tID int64 `json:\"id\"`\n\t// the name\n\tName string `json:\"name\"`\n}\n"
+	files["../v2/models/pet.go"] = "// Package models holds the second version.\npackage models\n\n// Pet of version two.\n//\n// swagger:model petV2\ntype Pet struct {\n\t// the id\n\tID int64 `json:\"id\"`\n\t// the tag\n\tTag string `json:\"tag\"`\n}\n"
+	files["versions.go"] = "package api\n\nimport (\n\tv1 \"scratchscan/v1/models\"\n\tv2 \"scratchscan/v2/models\"\n)\n\n// PetV1Response carries a pet of version one.\n//\n// swagger:response petV1Response\ntype PetV1Response struct {\n\t// in: body\n\tBody *v1.Pet\n}\n\n// PetV2Response carries a pet of version two.\n//\n// swagger:response petV2Response\ntype PetV2Response struct {\n\t// in: body\n\tBody *v2.Pet\n}\n"
 	var rt strings.Builder
 	rt.WriteString("package api\n\n// Mount mounts the routes.\nfunc Mount() {\n")
 	for _, x := range pg.Routes {
@@ -650,7 +654,9 @@ func writeProgram(dir string, files map[string]string) {
 	_ = os.MkdirAll(filepath.Join(dir, "api"), 0o755)
 	_ = os.WriteFile(filepath.Join(dir, "go.mod"), []byte("module scratchscan\n\ngo 1.21\n"), 0o644)
 	for n, c := range files {
-		_ = os.WriteFile(filepath.Join(dir, "api", n), []byte(c), 0o644)
+		p := filepath.Join(dir, "api", n) // "../v1/models/pet.go" lands beside the api package
+		_ = os.MkdirAll(filepath.Dir(p), 0o755)
+		_ = os.WriteFile(p, []byte(c), 0o644)
 	}
 }
 
@@ -861,6 +867,23 @@ func faithful(pg *aprog, sw *spec.Swagger, add func(key, what string, detail int
 						add(fmt.Sprintf("c17/parameter-keyword-differs[%s]", k), "a validation declared on the field is missing or different", J{"operation": id, "name": p.Name, "gotype": p.GoType, "keyword": k, "want": w, "got": g[k], "lines": p.Lines})
 					}
 				}
+			}
+		}
+	}
+	// the two homonymous packages: each response refers to the model of its own package
+	for _, v := range [][3]string{{"petV1Response", "petV1", "name"}, {"petV2Response", "petV2", "tag"}} {
+		n++
+		r, ok := sw.Responses[v[0]]
+		switch {
+		case !ok || r.Schema == nil:
+			add("c17/versioned-response-missing", "a swagger:response whose body is a model of a package that shares its name with another package is missing or has no schema", J{"response": v[0]})
+		case r.Schema.Ref.String() != "#/definitions/"+v[1]:
+			add("c17/versioned-response-differs", "the body of a response refers to the model of another package of the same name", J{"response": v[0], "want": v[1], "got": r.Schema.Ref.String()})
+		default:
+			if d, ok := sw.Definitions[v[1]]; !ok || d.Properties == nil {
+				add("c17/versioned-model-missing", "the model of a package that shares its name with another package is missing", J{"model": v[1]})
+			} else if _, ok := d.Properties[v[2]]; !ok {
+				add("c17/versioned-model-differs", "a model was scanned from the declaration of another package of the same name", J{"model": v[1], "missing_property": v[2]})
 			}
 		}
 	}
